@@ -89,6 +89,9 @@ func VerifC05_q_stepAgree() {
 	verifReach("op-returned")
 	verifAssert("C05/agree", w.agree(), "memory and store disagree after an operation")
 	w.store.FaultAt = 0
+	// the same instance still answers (a lock left held by a failed operation would block here)
+	_, _ = w.ipam.ByIP(net.ParseIP(w.ips[0]))
+	_, _, _ = w.ipam.ReleaseIPs(map[string]string{})
 	before := w.snapshot()
 	if err := w.restart(); err != nil {
 		return
